@@ -25,7 +25,7 @@ ASSUMPTIONS = ['a 0.5 s watchdog abandons (and counts) bit flips that make PGPy 
                'the classes the statement names (unknown types, unknown flag bits, text, booleans, legal length encodings), where it is reported as '
                'acceptance failure', 'a hashed creation time and an issuer are always present (every real caller provides them)']
 
-SIGNERS = ['ed25519-0', 'ecdsa-p256-0', 'rsa1024-0']
+SIGNERS = ['ed25519-0', 'ecdsa-p256-0', 'rsa1024-0', 'rsa1024-0/3', 'dsa1024-0']
 UNASSIGNED = [0, 1, 8, 13, 14, 15, 17, 18, 19, 34, 36] + list(range(38, 128))
 TEXT_TYPES = [24, 26, 28]
 TEXTS = [b'ascii text', 'ünï ☃ 日本'.encode(), b'latin-1 \xe9\xfc', b'\xff\xfe\x00 raw', b'']
@@ -97,7 +97,11 @@ def legal_forms(n):
 def build_case(c):
     """-> (Triple, descriptors) for case dict c = {signer, kind, subs:[(type, crit, a, b, formsel)], halg, issuer_hashed}"""
     kid = c['signer']
-    sec = keypool.ref_secret(kid)
+    # 'rsa1024-0/3' is the same key published under the deprecated RSA sign-only algorithm id (as old PGP keys are)
+    alias = None
+    if '/' in kid:
+        kid, alias = kid.split('/')[0], int(kid.split('/')[1])
+    sec = keypool.ref_secret(kid, alg=alias)
     pub = sec.pub
     parts = []
     descr = []
@@ -121,7 +125,7 @@ def build_case(c):
         unh = sp(16, pub.keyid)
     t = sigkit.Triple()
     t.label = 'c05/' + c['kind']
-    t.signer_cert = keypool.ref_cert(kid, secret=False)
+    t.signer_cert = keypool.ref_cert(kid, secret=False, alg=alias)
     t.signer_body = pub.body
     if c['kind'] == 'doc':
         t.kind, t.doc, st_ = 'doc', b'hashed area verbatim', 0x00
@@ -206,7 +210,8 @@ def evaluate(c, rec, flips='sample'):
         bits = range(nbits)
     else:
         step = max(1, nbits // 16)
-        bits = range((c.get('a', 0) * 7) % step, nbits, step)
+        # the four fixed octets (version, type, public-key algorithm, hash algorithm) are always flipped bit by bit
+        bits = sorted(set(range(32)) | set(range((c.get('a', 0) * 7) % step, nbits, step)))
     for bit in bits:
         mb = bytearray(t.sig)
         mb[bit // 8] ^= 1 << (bit % 8)
@@ -238,7 +243,7 @@ def w_cover(arg):
                         continue
                     if t == 2:
                         continue
-                    c = {'signer': SIGNERS[i % 3 if tier != 'quick' else i % 2], 'kind': ['doc', 'cert'][i % 2], 'halg': 8, 'subs': [(t, crit, v, i, fs)], 'issuer_hashed': bool(i % 3 == 0),
+                    c = {'signer': SIGNERS[i % 5] if (tier != 'quick' or i % 7 == 0) else SIGNERS[i % 2], 'kind': ['doc', 'cert'][i % 2], 'halg': 8, 'subs': [(t, crit, v, i, fs)], 'issuer_hashed': bool(i % 3 == 0),
                          'ctform': i, 'cpos': i, 'a': i}
                     evaluate(c, rec, 'all' if i % 4 == 0 else 'sample')
     # every value of every flag octet and boolean octet
